@@ -7,6 +7,7 @@ import (
 	"fmt"
 	"io"
 	"math/rand"
+	"sync"
 	"testing/iotest"
 	"time"
 
@@ -16,6 +17,7 @@ import (
 
 	"verif/internal/core"
 	"verif/internal/ref"
+	"verif/internal/simnet"
 	"verif/internal/val"
 )
 
@@ -23,7 +25,7 @@ func init() {
 	Registry["C08"] = Spec{
 		Fn:          c08,
 		Level:       "exploration",
-		Rule:        "the response scripts of C03 (incl. failing ones) are replayed under segmentations of the server byte stream: whole, one byte per read, two pieces at every offset (all offsets for streams <= 600 B, else 96 sampled), random split vectors, all 2^(n-1) splits of short (<= 12 B) responses, with 0..3 virtual read-deadline expiries before each packet, and with every packet split after its first byte / at a random offset by a pause that would expire an armed read deadline; the stream cut after a random byte (server gone) under whole / one-byte / two-piece-near-the-cut / random delivery must fail with the same error class (io.EOF, io.ErrUnexpectedEOF, exception, callback error); every run is compared with the executable model (same oracle as C03) and a follow-up Ping must find the connection at a packet boundary. Proto level: library-encoded blocks and messages (plain and inside each kind of compressed frame) decoded through one-byte, half, data-with-EOF and random-chunk readers must give the values and consumption of the one-shot decode. Non-trivial = >=2 segments that split a field; distinct = (stream, segmentation)",
+		Rule:        "the response scripts of C03 (incl. failing ones) are replayed under segmentations of the server byte stream: whole, one byte per read, two pieces at every offset (all offsets for streams <= 600 B, else 96 sampled), random split vectors, all 2^(n-1) splits of short (<= 12 B) responses, with 0..3 virtual read-deadline expiries before each packet, and with every packet split after its first byte / at a random offset by a pause that would expire an armed read deadline; the stream cut after a random byte (server gone) under whole / one-byte / two-piece-near-the-cut / random delivery must fail with the same error class (io.EOF, io.ErrUnexpectedEOF, exception, callback error); read timeouts also expire while a client write is held back by the peer (streamed INSERT, no caller deadline: nothing may time the write out); every run is compared with the executable model (same oracle as C03) and a follow-up Ping must find the connection at a packet boundary. Proto level: library-encoded blocks and messages (plain and inside each kind of compressed frame) decoded through one-byte, half, data-with-EOF and random-chunk readers must give the values and consumption of the one-shot decode. Non-trivial = >=2 segments that split a field; distinct = (stream, segmentation)",
 		Assumptions: []string{"only read patterns a conforming io.Reader / net.Conn may produce"},
 		MinDistinct: 500,
 	}
@@ -199,6 +201,15 @@ func c08(r *core.Run) {
 		// the connection must be at a packet boundary after a successful query
 		c08Boundary(r, s, rng)
 	}
+	// idle gaps while a client write is held back by the peer
+	for k := 0; k < r.Pick(16, 200); k++ {
+		ci++
+		if !r.Take(ci) {
+			continue
+		}
+		r.CaseLog(fmt.Sprintf("%d blocked-write-idle %d", ci, k))
+		c08BlockedWriteIdle(r, k)
+	}
 	// ---- proto level ----
 	nb := r.Pick(250, 6000)
 	for k := 0; k < nb; k++ {
@@ -317,6 +328,71 @@ func segKind(name string) string {
 		}
 	}
 	return name
+}
+
+// c08BlockedWriteIdle: "read timeouts that expire between packets while a query is running are
+// retried and change nothing" - also while the sender is in the middle of a write that the peer
+// is slow to take (back-pressure): the server reads nothing and sends nothing for 12 read
+// timeouts, then resumes. The context has no deadline, so nothing may time the write out.
+func c08BlockedWriteIdle(r *core.Run, k int) {
+	script := &simnet.Script{Rev: 54460}
+	sim := newSim(script)
+	script.OnQuery = func(rq *ref.Query) []simnet.Item {
+		hdr := &ref.Block{Cols: []ref.Col{{Name: "n", Type: "UInt64"}}}
+		return []simnet.Item{{Data: simnet.PacketData(54460, ref.ServerDataCode, hdr, false, 0)}}
+	}
+	script.OnDataEnd = func() []simnet.Item { return []simnet.Item{{Data: simnet.PacketEnd()}} }
+	sim.Srv.InputExpected = func(*ref.Query) bool { return true }
+	var once sync.Once
+	gateName := fmt.Sprintf("write:before:%d", 2+k%4)
+	sim.Conn.OnGate = func(g string) {
+		if g == gateName {
+			once.Do(func() {
+				w := sim.Conn.WrittenBytes()
+				sim.Conn.Locked(func() { sim.Conn.BlockWritesAfter = w + int64(k%7) })
+				time.AfterFunc(360*time.Millisecond, sim.Conn.UnblockWrites)
+			})
+		}
+	}
+	col := new(proto.ColUInt64)
+	for i := 0; i < 50; i++ {
+		col.Append(uint64(i))
+	}
+	round := 0
+	var cerr, derr error
+	ok := runWithWatchdog(30*time.Second, func() {
+		ctx := context.Background()
+		if cerr = sim.connect(ctx, ch.Options{ReadTimeout: 30 * time.Millisecond}); cerr != nil {
+			return
+		}
+		derr = sim.Client.Do(ctx, ch.Query{Body: "INSERT INTO t VALUES", Input: proto.Input{{Name: "n", Data: col}}, OnInput: func(context.Context) error {
+			round++
+			if round >= 4 {
+				return io.EOF
+			}
+			col.Reset()
+			for i := 0; i < 50; i++ {
+				col.Append(uint64(round*1000 + i))
+			}
+			return nil
+		}})
+	})
+	r.Eval()
+	r.NonTrivial("blocked-write-idle", k)
+	r.SetAdd("segmentation_kinds", "idle-gap-during-blocked-write")
+	desc := map[string]any{"blocked_write": gateName, "bytes_of_it_accepted": k % 7}
+	switch {
+	case !ok:
+		r.Inconclusive("insert with a blocked write did not return")
+		sim.Conn.Close()
+	case cerr != nil:
+		r.Violation("harness:handshake", cerr.Error(), desc)
+	case derr != nil || sim.Srv.Err != nil:
+		r.Violation("read-timeouts-change-outcome:during-blocked-write", fmt.Sprintf("a streamed INSERT whose %s was held back by the peer for 12 read timeouts (no caller deadline) failed: Do=%v, server-side parse error=%v", gateName, derr, sim.Srv.Err), desc)
+	}
+	if sim.Client != nil {
+		sim.Client.Close()
+	}
 }
 
 // c08Boundary: after a query that ends with EndOfStream, a Ping on the same client must succeed
